@@ -17,7 +17,7 @@ func init() {
 		ID:          "C16",
 		Explanation: "Decided: (names) the short-name allocator records every name it hands out in the scope's table before returning, tests candidates against that table, package-level names are propagated to every enclosing scope and nested scopes start from a copy of their parent's table, which is seeded with every reserved word; reservedKeywords contains the ECMAScript reserved words and the names the generated code depends on; (space) the whitespace remover keeps a separator exactly where two identifier-class bytes (evaluated over all 256 byte values) or two minus signs would otherwise touch, copies string literals and source-map hints verbatim; (lex) the template corpus contains none of the token shapes the remover does not understand (line comments, single-quoted/template strings, punctuator pairs separated only by a blank that would merge into another token, comment terminators inside generated comments); every code field of a Decl is minified. NOT decided: behavioural equivalence of minified output; esbuild's minification of the prelude.",
 		Assumptions: []string{"esbuild's minifier preserves the behaviour of the prelude and .inc.js files"},
-		Rules:       []RuleFunc{ruleC16Names, ruleC16Space, ruleC16Lex, ruleL8, ruleL9, ruleC16WriteJS, ruleKeepNames},
+		Rules:       []RuleFunc{ruleC16Names, ruleC16Space, ruleC16Lex, ruleL8, ruleL9, ruleC16WriteJS, ruleKeepNames, ruleStatementTemplatesTerminated},
 	})
 }
 
